@@ -20,7 +20,7 @@ from driver import run_batch
 from wire import to_wire, canon, exc_class
 from props.common import scale, depth_of, schema_tags
 
-THEOREMS = ["c20_generated_conforms", "c20_exact_count", "c20_terminates_tree", "c20_nontermination_counterexample",
+THEOREMS = ["c20_generated_conforms", "c20_generated_validates", "c20_exact_count", "c20_terminates_tree", "c20_nontermination_counterexample",
             "Tables.generate_ranges"]
 TARGETS = ["Properties.TablesGenerate", "Properties.C20"]
 
